@@ -11,7 +11,7 @@ from xgi.exception import XGIError
 from .gamma import UNKNOWN
 
 OP_DEFAULTS = {
-    "name": "", "n": -1, "n2": -1, "e": -1, "e2": -1, "m": [], "id": -1, "a": [],
+    "name": "", "n": -1, "n2": -1, "e": -1, "e2": -1, "m": [], "h": [], "id": -1, "a": [],
     "b1": False, "b2": False, "b3": False, "b4": False, "b5": False,
     "items": [], "fmt": 0, "k": 0, "v": [2], "s1": "", "s2": "",
     "ns": [], "kv": [], "kd": [],
@@ -29,7 +29,7 @@ def mkop(name, **kw):
 
 
 def item(m=(), id=-1, a=(), w=(2,)):
-    return {"m": list(m), "id": id, "a": [list(p) for p in a], "w": list(w)}
+    return {"m": list(m), "h": [], "id": id, "a": [list(p) for p in a], "w": list(w)}
 
 
 def peek_uid(H):
